@@ -146,6 +146,15 @@ func TestVerif_C01_Random(t *testing.T) {
 			sh := c.Repos[rng.Intn(len(c.Repos))].Shard
 			c01Search(tr, l, "shard", sh, &corpus.Q{T: "symbol", Sub: []*corpus.Q{e}}, opts, detail, nil)
 		}
+		// matches at the very end / start of a content or name, pattern spelled with other members of
+		// the fold orbits
+		for k := 0; k < 4; k++ {
+			fn := k == 3
+			e := &corpus.Q{T: "substr", Pat: c.PickEdgePattern(rng, fn), CT: !fn, FN: fn, CS: false}
+			opts := &zoekt.SearchOptions{ChunkMatches: rng.Intn(2) == 0}
+			sh := c.Repos[rng.Intn(len(c.Repos))].Shard
+			c01Search(tr, l, "shard", sh, e, opts, detail, nil)
+		}
 		for k := 0; k < nq; k++ {
 			opts := &zoekt.SearchOptions{ChunkMatches: rng.Intn(2) == 0, NumContextLines: []int{0, 0, 1, 2, 5}[rng.Intn(5)]}
 			if rng.Intn(2) == 0 {
